@@ -192,7 +192,7 @@ func pureExternal(name string) bool {
 func stdInline(name string) bool {
 	for _, p := range []string{"encoding/binary.littleEndian", "encoding/binary.bigEndian", "(encoding/binary.littleEndian)", "(encoding/binary.bigEndian)",
 		"(*sync/atomic.", "math/bits.RotateLeft", "math/bits.Reverse", "math/bits.Add64", "math/bits.Sub64", "math/bits.Mul64",
-		"(*sync.Once).Do", "sort.Slice", "(time.Duration).", "slices.Grow", "slices.Clone", "slices.Contains", "slices.Index", "unicode/utf8.RuneLen", "unicode/utf8.ValidRune",
+		"(*sync.Once).Do", "sort.Slice", "(time.Duration).", "(*bytes.Reader).", "slices.Grow", "slices.Clone", "slices.Contains", "slices.Index", "unicode/utf8.RuneLen", "unicode/utf8.ValidRune",
 	} {
 		if strings.HasPrefix(name, p) {
 			return true
